@@ -2,8 +2,6 @@ package checks
 
 import (
 	"fmt"
-	"regexp"
-	"strings"
 
 	"verif/harness/app"
 	"verif/harness/vk"
@@ -15,9 +13,6 @@ import (
 // the model by the main leg): the selected language has to travel from the session state through the context into
 // the store's key derivation (translation key, default key as fall-back) on every template and label lookup, in
 // long-lived and persisted operation.
-// first line of a page that shows an error of the recording resource (its own wording)
-var harnessErrLine = regexp.MustCompile(`^(no code for node "|no template for node "|no function for symbol "|function \S+ failed on call \d+)[^\n]*\n`)
-
 func c18DbStack(c *vk.Ctx) {
 	n := c.N(240, 8000)
 	type variant struct{ res, ses string }
@@ -46,6 +41,12 @@ func c18DbStack(c *vk.Ctx) {
 		langs := map[string]bool{}
 		for _, in := range hist {
 			o := ref.Request([]byte(in))
+			if ref.Res.Failures > 0 {
+				// the text of a resource error is the resource's own wording; it is shown on the page and counts
+				// against the page size, so from here on the two deployments may legitimately differ
+				c.Count("dbstack_histories_cut_at_a_resource_error", 1)
+				break
+			}
 			want = append(want, o)
 			for _, e := range o.Events {
 				if e.Kind == "template" || e.Kind == "menu" {
@@ -80,14 +81,6 @@ func c18DbStack(c *vk.Ctx) {
 				break
 			}
 			gout, wout := g.Out, w.Out
-			if harnessErrLine.MatchString(wout) {
-				// the page starts with the text of a resource error, which is the resource's own wording: compare the rest
-				wout = wout[strings.Index(wout, "\n")+1:]
-				if k := strings.Index(gout, "\n"); k >= 0 {
-					gout = gout[k+1:]
-				}
-				c.Count("dbstack_pages_with_resource_error_line(line not compared)", 1)
-			}
 			if (g.ExecErr == "") != (w.ExecErr == "") || (g.FlushErr == "") != (w.FlushErr == "") || g.Cont != w.Cont || gout != wout {
 				comp := "result"
 				if gout != wout {
